@@ -251,6 +251,13 @@ func (n *node) readdir() ([]fuse.DirEntry, syscall.Errno) {
 
 	// Append whiteouts if no entry replaces the target entry in the lower layer.
 	for w, id := range whiteouts {
+		target := w[len(whiteoutPrefix):]
+		// Lookup never answers the names it hides (".wh." names anywhere, the prefetch
+		// landmarks in "/"), so don't list a whiteout under such a name either.
+		if target == "" || strings.HasPrefix(target, whiteoutPrefix) ||
+			(isRoot && (target == estargz.PrefetchLandmark || target == estargz.NoPrefetchLandmark)) {
+			continue
+		}
 		if !normalEnts[w[len(whiteoutPrefix):]] {
 			ino, err := n.fs.inodeOfID(id)
 			if err != nil {
